@@ -90,6 +90,14 @@ def run_shards(prop, specs, timeout, jobs=NCPU):
     return res
 
 
+def _pick_samples(samples, k=8):
+    """A spread over the shards rather than the first k."""
+    if len(samples) <= k:
+        return samples
+    step = len(samples) / k
+    return [samples[int(i * step)] for i in range(k)]
+
+
 def _size(w):
     return len(json.dumps(w['case'], default=repr))
 
@@ -156,7 +164,7 @@ def check(prop, tier, seed, shard_filter=None):
         'evaluations': res.evaluations,
         'distinct_nontrivial': len(res.nontrivial),
         'rule': getattr(mon, 'RULE', ''),
-        'samples': res.samples[:8],
+        'samples': _pick_samples(res.samples),
         'counters': {k: v for k, v in sorted(res.counters.items())},
         'maxima': {k: v for k, v in sorted(res.maxima.items())},
         'distinct_seen': {k: len(v) for k, v in sorted(res.sets.items())},
